@@ -1,12 +1,183 @@
-/- Driver family `texc`: C20 — texture containers.  (stub: replace `family`) -/
+/-
+Driver family `texc`: C20 — texture containers CTPK / BCH / CGFX / TPL.
+Case and implementation lines: see harness/src/fam/texc.rs.
+-/
 import Driver.Common
+import Driver.Pixel
+import MilaModel.Model.Containers
+import MilaModel.Spec.TexContainers
 
 namespace Driver.Texc
-open Mila
+open Mila Mila.Containers Driver.Pixel
+
+def readKind (p : Profile) (kind : String) (d : Buf) : Res (List Texture) :=
+  match kind with
+  | "ctpk" => ctpkRead p d
+  | "bch" => bchRead p d
+  | "cgfx" => cgfxRead p d
+  | "tpl" => tplRead d
+  | _ => .err .Other
+
+def texturesText (ts : List Texture) : String :=
+  ts.foldl (fun s t => s ++ " " ++ hexOfBytes t.name ++ " " ++ toString t.width ++ " " ++ toString t.height ++ " " ++
+    hexOfBuf t.pixels) (toString ts.length)
+
+def hash2 (s : String) : UInt64 × UInt64 := Id.run do
+  let mut h1 : UInt64 := 0xcbf29ce484222325
+  let mut h2 : UInt64 := 0x9E3779B97F4A7C15
+  for b in s.toUTF8 do
+    h1 := (h1 ^^^ b.toUInt64) * 0x100000001b3
+    h2 := h2 * 0x2545F4914F6CDD1D + (b.toUInt64 + 1)
+    h2 := h2 ^^^ (h2 >>> 29)
+  return (h1, h2)
+
+def hex16 (v : UInt64) : String := Id.run do
+  let mut s := ""
+  for i in [0:16] do
+    let nib := (v >>> (UInt64.ofNat (60 - 4 * i))) &&& 0xF
+    s := s.push (hexChar nib.toUInt8)
+  return s
+
+def classOf (r : Res (List Texture)) : String :=
+  match r with
+  | .panic => "panic"
+  | .err e => "err." ++ e.name
+  | .ok ts => let (a, b) := hash2 (texturesText ts); "ok." ++ hex16 a ++ "." ++ hex16 b
+
+def outcome (r : Res (List Texture)) : String :=
+  match r with
+  | .panic => "panic"
+  | .err e => "err " ++ e.name
+  | .ok ts => "ok " ++ texturesText ts
+
+def prefixRuns (p : Profile) (kind : String) (file : Buf) : String := Id.run do
+  let mut runs : Array (Nat × Nat × String) := #[]
+  for k in [0:file.size] do
+    let c := classOf (readKind p kind (file.extract 0 k))
+    match runs.back? with
+    | some (a, _, c') => if c' == c then runs := runs.pop.push (a, k, c) else runs := runs.push (k, k, c)
+    | none => runs := runs.push (k, k, c)
+  if runs.isEmpty then return "-"
+  return ",".intercalate (runs.toList.map fun (a, b, c) => s!"{a}-{b}:{c}")
+
+/-- the texture descriptions of a case line: 8 fields per texture. -/
+def parseTexs (kind : String) (file : Buf) : List String → List (Spec.Tex.Tex × Nat × Nat × Nat × Nat)
+  | name :: w :: h :: fmt :: po :: pl :: qo :: ql :: rest =>
+    let nm := hexOrBad name
+    let (po, pl, qo, ql) := (po.toNat!, pl.toNat!, qo.toNat!, ql.toNat!)
+    let stored := if kind == "ctpk" then (Sjis.enc nm).getD [0] else nm
+    (⟨nm, stored, w.toNat!, h.toNat!, fmt.toNat!, file.extract po (po + pl), file.extract qo (qo + ql)⟩, po, pl, qo, ql)
+      :: parseTexs kind file rest
+  | _ => []
+
+def conforms (kind : String) (file : Buf) (texs : List Spec.Tex.Tex) : Bool :=
+  match kind with
+  | "ctpk" => Spec.Tex.ConformsCtpk (decodeName .sjis) file texs
+  | "bch" => Spec.Tex.ConformsBch file texs
+  | "cgfx" => Spec.Tex.ConformsCgfx file texs
+  | "tpl" => Spec.Tex.ConformsTpl file texs
+  | _ => false
+
+/-- The offsets the specification assigns to the payloads agree with the extents the generator reports. -/
+def extentsAgree (kind : String) (file : Buf) (exts : List (Nat × Nat × Nat × Nat)) : Bool :=
+  (List.range exts.length).all fun i =>
+    let (po, _, qo, _) := exts.getD i (0, 0, 0, 0)
+    match kind with
+    | "ctpk" => Spec.Tex.ctpkPayloadAt file i == po
+    | "bch" => Spec.Tex.bchPayloadAt file i == po
+    | "cgfx" => Spec.Tex.cgfxPayloadAt file i == po
+    | "tpl" => Spec.Tex.tplPayloadAt file i == po && Spec.Tex.tplPaletteAt file i == qo
+    | _ => false
+
+def n2Ambiguous (kind : String) (file : Buf) : Bool :=
+  kind == "bch" && (Spec.Tex.bchExtended (Spec.Tex.u8At file 4)).isNone
+
+/-- impl fields after `ok <n>`: 4 per texture. -/
+def judgeTextures (kind : String) : List Spec.Tex.Tex → List String → String
+  | [], [] => "ok"
+  | t :: ts, name :: w :: h :: px :: rest =>
+    if hexOrBad name ≠ t.name then s!"FAIL texture name {name}, packed name {hexOfBytes t.name}"
+    else if w.toNat! ≠ t.width ∨ h.toNat! ≠ t.height then s!"FAIL dimensions {w}x{h}, packed {t.width}x{t.height}"
+    else
+      let out := bufOfHex px
+      let v :=
+        if kind == "tpl" then judgeCi8 t.width t.height t.palette t.payload out
+        else if t.format == 12 then judgeEtc false t.width t.height t.payload out
+        else if t.format == 13 then judgeEtc true t.width t.height t.payload out
+        else match Spec.Linear.layout t.format with
+          | some l => judgeTiled l t.width t.height t.payload out
+          | none => "FAIL unsupported format in a conforming case"
+      if v == "ok" then judgeTextures kind ts rest else v
+  | _, _ => "FAIL texture count differs from the packed list"
+
+def badMagic (kind : String) (file : Buf) : Bool :=
+  match kind with
+  | "bch" => file.size ≥ 4 && Spec.Tex.u32At file 0 != 0x484342
+  | "cgfx" => file.size ≥ 4 && Spec.Tex.u32At file 0 != 0x58464743
+  | "tpl" => file.size ≥ 4 && Spec.Tex.be32 file 0 != 0x0020AF30
+  | _ => false
+
+/-- parse `a-b:class,…` -/
+def parseRuns (s : String) : List (Nat × Nat × String) :=
+  if s == "-" then [] else
+  (s.splitOn ",").filterMap fun r =>
+    match r.splitOn ":" with
+    | [ab, c] => match ab.splitOn "-" with
+      | [a, b] => some (a.toNat!, b.toNat!, c)
+      | _ => none
+    | _ => none
+
+def judgePrefixes (exts : List (Nat × Nat × Nat × Nat)) (fileSize : Nat) (runs : List (Nat × Nat × String)) : String := Id.run do
+  -- the runs must cover 0..fileSize-1 contiguously
+  let mut next := 0
+  for (a, b, c) in runs do
+    if a ≠ next ∨ b < a then return s!"FAIL prefix report not contiguous at {a}"
+    next := b + 1
+    if c == "panic" then return s!"FAIL panic on the prefix of length {a}"
+    if !c.startsWith "err" then
+      for (po, pl, qo, ql) in exts do
+        if Spec.Tex.cuts a po pl then return s!"FAIL prefix of length {a} cuts the payload at {po}+{pl} but reads as {c}"
+        if Spec.Tex.cuts a qo ql then return s!"FAIL prefix of length {a} cuts the palette at {qo}+{ql} but reads as {c}"
+  if next ≠ fileSize then return s!"FAIL prefix report ends at {next}, file has {fileSize} bytes"
+  return "ok"
 
 def family : Family where
   State := Unit
   init := ()
-  step := fun _ _ _ => ((), "unimplemented", "FAIL unimplemented")
+  step := fun _ c i =>
+    let prof := i.getD 1 "dev"
+    let p := profileOf prof
+    let out (m o : String) : Unit × String × String := ((), prof ++ " " ++ m, o)
+    match c with
+    | _ :: op :: kind :: fileHex :: n :: rest =>
+      let file := bufOfHex fileHex
+      let claimed := n != "~"
+      let parsed := if claimed then parseTexs kind file rest else []
+      let texs := parsed.map (·.1)
+      let exts := parsed.map (·.2)
+      let inSpec := claimed && !n2Ambiguous kind file
+      let specOk := conforms kind file texs && extentsAgree kind file exts && texs.length == n.toNat!
+      if op == "read" then
+        let m := outcome (readKind p kind file)
+        let o :=
+          if !claimed then
+            if badMagic kind file then
+              (if i.getD 2 "" == "err" then "ok" else "FAIL wrong magic must be rejected, got " ++ " ".intercalate ((i.drop 2).take 2))
+            else "ok skip"
+          else if !inSpec then "ok skip N2"
+          else if !specOk then "FAIL generated file does not satisfy the container specification (harness/spec disagreement)"
+          else if i.getD 2 "" != "ok" then "FAIL a conforming container must be read, got " ++ " ".intercalate ((i.drop 2).take 2)
+          else if (i.getD 3 "").toNat! ≠ texs.length then s!"FAIL {i.getD 3 ""} textures returned, {texs.length} packed"
+          else judgeTextures kind texs (i.drop 4)
+        out m o
+      else if op == "prefixes" then
+        let m := prefixRuns p kind file
+        let o :=
+          if !inSpec then "ok skip N2"
+          else if !specOk then "FAIL generated file does not satisfy the container specification (harness/spec disagreement)"
+          else judgePrefixes exts file.size (parseRuns (i.getD 2 "-"))
+        out m o
+      else out "bad-case" "FAIL bad-case"
+    | _ => out "bad-case" "FAIL bad-case"
 
 end Driver.Texc
